@@ -3,6 +3,7 @@ import DimodProofs.SymInfo
 import DimodProofs.SymStore
 import DimodProofs.SymStoreMore
 import DimodProofs.SymCmp
+import DimodProofs.SymGen
 
 /-! # C06 — symbolic arithmetic on models is pointwise arithmetic on energies
 
@@ -381,5 +382,113 @@ theorem square_real_rejected (l : Label) (b c lo hi : Rat) :
     mMul ⟨true, .binary, [⟨l, ⟨.real, lo, hi⟩, b⟩], [], 0⟩ ⟨true, .binary, [⟨l, ⟨.real, lo, hi⟩, c⟩], [], 0⟩
       = .error .value := by
   simp [mMul, qmMul, Model.isLinear, addVariables, addVariable, emptyQM, mulOuter, mulInner, qmMulStep, addQuadratic, vtOf, findVar]
+
+
+/-! ## round 7: theorems over the operator programs GENERATED from the source
+
+`Generated/SymPrograms.lean` is rewritten on every run by `harness/translators/sym_programs.py`: the body of every operator
+overload of `BinaryQuadraticModel`, `QuadraticModel` and the CQM expression views, partially evaluated per class of the
+operands (Python's `__op__` / `__rop__` / `__iop__` dispatch inlined) into a program over `Sym.Instr`.  The theorems below
+quantify over those generated programs, so a change of an operator body in the source changes their subject. -/
+
+/-- **operands_unchanged over the generated bodies**: every non-in-place operator form of the source (`+ - *` over
+    BQM / QM / expression view / number in every combination incl. the reflected ones, unary `-`, `/ q`, `** 2`) and every
+    in-place form that falls back on a binary operator writes only to objects it allocated: whatever store it runs in, and
+    whether it returns or is rejected half-way, every object that existed before — both operands — is as it was. -/
+theorem generated_operands_unchanged (h : Store) (a b : Nat) (q : Rat) (p : List Instr)
+    (hp : p ∈ Generated.nonInplace a b q h.length ∨ p ∈ Generated.inplaceFallback a b q h.length) :
+    (∀ j, j < h.length → (execT h p).1[j]? = h[j]?) ∧
+    (∀ h', exec h p = .ok h' → ∀ j, j < h.length → h'[j]? = h[j]?) := by
+  have hw : WritesFresh h.length p = true :=
+    List.all_eq_true.mp (generated_write_fresh a b q h.length) p (List.mem_append.mpr hp)
+  exact ⟨execT_frame p h h.length (Nat.le_refl _) hw, fun h' he => exec_frame p h h' h.length (Nat.le_refl _) hw he⟩
+
+/-- **the mutating in-place forms touch their left operand only** (`+=`, `-=`, `*= q`, `/= q` when `__iop__` accepts): every
+    other existing object — in particular the right operand when it is another object — is as it was, also when the
+    operator is rejected half-way (the left operand may then be left modified: `scale(-1)` before a rejected `update`) -/
+theorem generated_inplace_touches_left_only (h : Store) (a b : Nat) (q : Rat) (p : List Instr)
+    (hp : p ∈ Generated.inplaceMutating a b q h.length) (j : Nat) (hj : j < h.length) (hja : j ≠ a) :
+    (execT h p).1[j]? = h[j]? :=
+  execT_frame_ne p h j hj (noWrite_of_targets p a j hja (List.all_eq_true.mp (generated_inplace_targets a b q h.length) p hp))
+
+/-- non-vacuity and sharpness: `Integer('i', ub=5) -= Integer('i', ub=7)` is rejected and leaves the LEFT operand negated
+    (as the code does), the right one untouched -/
+example :
+    (match execT [⟨true, .binary, [⟨.str "i", ⟨.integer, 0, 5⟩, 1⟩], [], 0⟩, ⟨true, .binary, [⟨.str "i", ⟨.integer, 0, 7⟩, 1⟩], [], 0⟩]
+       (Generated.qm_isub_qm 0 1 0 2) with
+     | (s, e) => decide (e = some .value) && (s.map fun m => m.vars.map (·.bias)) == [[-1], [1]]) = true := by decide +kernel
+
+/-- **the generated bodies are the modelled programs** of `DimodModel/SymStore.lean` (so `add_program_refines`, `sub_programs_refine`,
+    `scalar_and_mul_programs_refine`, `add_promoting_programs_refine`, `mul_promoting_programs_refine` and
+    `quicksum_program_refines` speak about the source's own operator bodies): they compute `mAdd` / `mSub` / `mMul` /
+    `scale` / `addOffset` of the operands.  (The views' operators with a BQM operand and `BQM * BQM` of different vartypes are
+    generated with the source's exact allocation order, which differs from the hand-written `progViewAddBqm`, `progViewSubBqm`,
+    `progMulPromoteBoth`; they are covered by `generated_operands_unchanged` and `generated_mul_differ_refines`.) -/
+theorem generated_programs_are_modelled (a b : Nat) (q : Rat) (n : Nat) :
+    Generated.bqm_add_bqm_same a b q n = progAddSame a b n ∧
+    Generated.qm_add_qm a b q n = progAddSame a b n ∧
+    Generated.bqm_add_bqm_differ a b q n = progAddPromoteBoth a b n ∧
+    Generated.bqm_add_qm a b q n = progAddPromoteLeft a b n ∧
+    Generated.qm_add_bqm a b q n = progAddPromoteRight a b n ∧
+    Generated.bqm_sub_bqm_same a b q n = progSubSame a b n ∧
+    Generated.qm_sub_qm a b q n = progSubSame a b n ∧
+    Generated.bqm_sub_bqm_differ a b q n = progSubPromoteBoth a b n ∧
+    Generated.bqm_sub_qm a b q n = progSubPromoteLeft a b n ∧
+    Generated.qm_sub_bqm a b q n = progSubPromoteRight a b n ∧
+    Generated.bqm_add_num a b q n = progAddNum a q n ∧
+    Generated.qm_add_num a b q n = progAddNum a q n ∧
+    Generated.num_add_bqm a b q n = progAddNum a q n ∧
+    Generated.num_add_qm a b q n = progAddNum a q n ∧
+    Generated.bqm_sub_num a b q n = progAddNum a (-q) n ∧
+    Generated.qm_sub_num a b q n = progAddNum a (-q) n ∧
+    Generated.num_sub_bqm a b q n = progRsubNum a q n ∧
+    Generated.num_sub_qm a b q n = progRsubNum a q n ∧
+    Generated.bqm_mul_num a b q n = progScale a q n ∧
+    Generated.qm_mul_num a b q n = progScale a q n ∧
+    Generated.num_mul_bqm a b q n = progScale a q n ∧
+    Generated.num_mul_qm a b q n = progScale a q n ∧
+    Generated.bqm_neg a b q n = progScale a (-1) n ∧
+    Generated.qm_neg a b q n = progScale a (-1) n ∧
+    Generated.bqm_truediv_num a b q n = progScale a (1 / q) n ∧
+    Generated.qm_truediv_num a b q n = progScale a (1 / q) n ∧
+    Generated.bqm_mul_bqm_same a b q n = progMulSame a b n ∧
+    Generated.qm_mul_qm a b q n = progMulSame a b n ∧
+    Generated.bqm_mul_qm a b q n = progMulPromoteLeft a b n ∧
+    Generated.qm_mul_bqm a b q n = progMulPromoteRight a b n ∧
+    Generated.bqm_pow_2 a b q n = progPow2 a n ∧
+    Generated.qm_pow_2 a b q n = progPow2 a n ∧
+    Generated.view_add_qm a b q n = progViewAdd a b n ∧
+    Generated.view_sub_qm a b q n = progViewSub a b n ∧
+    Generated.view_add_num a b q n = progViewAddNum a q n ∧
+    Generated.view_sub_num a b q n = progViewAddNum a (-q) n ∧
+    Generated.qm_add_view a b q n = progViewRadd b a n ∧
+    Generated.qm_sub_view a b q n = progViewRsub b a n ∧
+    Generated.num_sub_view a b q n = progViewRsubNum a q n ∧
+    Generated.bqm_iadd_bqm_same a b q n = progIaddSame a b ∧
+    Generated.qm_iadd_qm a b q n = progIaddSame a b ∧
+    Generated.bqm_isub_bqm_same a b q n = progIsubSame a b ∧
+    Generated.qm_isub_qm a b q n = progIsubSame a b := by
+  (repeat' apply And.intro) <;> rfl
+
+/-- the generated `BQM * BQM` of different vartypes computes `mMul` into the object it returns -/
+theorem generated_mul_differ_refines (h : Store) (a b : Nat) (q : Rat) (x y : Model) (ha : h[a]? = some x) (hb : h[b]? = some y)
+    (hx : x.isQM = false) (hy : y.isQM = false) (hd : bqmDiffer x y = true) (hl : x.isLinear = true ∧ y.isLinear = true) :
+    (exec h (Generated.bqm_mul_bqm_differ a b q h.length)).map (fun h' => h'[Generated.bqm_mul_bqm_differResult a b h.length]?)
+      = (mMul x y).map some :=
+  exec_gen_mulDiffer h a b q x y ha hb hx hy hd hl
+
+/-- the operator forms no class accepts (TypeError) are exactly the ones `valMul` / `valNeg` / `valDiv` / `valPow` refuse:
+    every product, negation, division and power involving an expression view -/
+theorem generated_refused_are_the_view_forms :
+    Generated.refused = ["bqm_mul_view", "bqm_imul_view", "qm_mul_view", "qm_imul_view", "view_mul_bqm", "view_imul_bqm",
+      "view_mul_qm", "view_imul_qm", "view_mul_view", "view_imul_view", "view_mul_num", "view_imul_num", "num_mul_view",
+      "view_neg", "view_truediv_num", "view_itruediv_num", "view_pow_2"] ∧
+    (∀ o m v, valMul (.view o m) v = .error .type) ∧ (∀ o m v, valMul v (.view o m) = .error .type) ∧
+    (∀ o m, valNeg (.view o m) = .error .type) ∧ (∀ o m q, valDiv (.view o m) q = .error .type) ∧
+    (∀ o m n, valPow (.view o m) n = .error .type) := by
+  refine ⟨rfl, ?_, ?_, fun _ _ => rfl, ?_, fun _ _ _ => rfl⟩
+  · intro o m v; cases v <;> rfl
+  · intro o m v; cases v <;> rfl
+  · intro o m q; by_cases hq : q = 0 <;> simp [valDiv, hq]
 
 end C06
